@@ -133,14 +133,22 @@ fn gen_rc_params_sized(r: &mut Rng, one_qubit: bool, wide: bool) -> RcParams {
     let qubits = if one_qubit {
         1
     } else if wide {
-        *r.pick(&[16usize, 33, 64, 65, 100, 129, 300])
+        if r.chance(0.5) {
+            *r.pick(&[16usize, 33, 64, 65, 100, 129, 300])
+        } else {
+            r.log_uniform(11, 300)
+        }
     } else {
         2 + r.below(9)
     };
     let depth = if r.chance(0.05) {
         0
     } else if wide {
-        *r.pick(&[100usize, 300, 1030, 2500]) + r.below(40)
+        if r.chance(0.5) {
+            *r.pick(&[100usize, 300, 1030, 2500]) + r.below(40)
+        } else {
+            r.log_uniform(81, 3000)
+        }
     } else {
         r.below(81)
     };
@@ -516,7 +524,15 @@ fn check_pauli_gadget(family: &'static str, index: u64, r: &mut Rng) {
 /// checks are structural, so size is free)
 fn check_pauli_gadget_sized(family: &'static str, index: u64, r: &mut Rng, wide: bool) {
     let c = ctx();
-    let qubits = if wide { *r.pick(&[16usize, 17, 24, 33, 50, 64, 65, 100, 129, 300]) } else { 1 + r.below(9) };
+    let qubits = if wide {
+        if r.chance(0.5) {
+            *r.pick(&[16usize, 17, 24, 33, 50, 64, 65, 100, 129, 300])
+        } else {
+            r.log_uniform(10, 300)
+        }
+    } else {
+        1 + r.below(9)
+    };
     let depth = if r.chance(0.05) { 0 } else { r.below(if wide { 61 } else { 13 }) };
     let min_w = if wide && r.chance(0.8) { 1 + r.below(4) } else { 1 + r.below(qubits) };
     let single_weight = r.chance(0.25);
